@@ -340,7 +340,9 @@ where
         #[cfg(pdf_rs_pdf_verif)]
         crate::verif::hook("cache?", key.id);
         
+        let mut computed_here = false;
         let res = self.storage.cache.get_or_compute(key, || {
+            computed_here = true;
             match self.resolve(key).and_then(|p| T::from_primitive(p, self)) {
                 Ok(obj) => Ok(AnySync::new(Shared::new(obj))),
                 Err(e) => {
@@ -360,7 +362,14 @@ where
                     }
                 }
             }
-            Err(e) => Err(PdfError::Shared { source: e.clone()}),
+            Err(e) if computed_here => Err(PdfError::Shared { source: e.clone()}),
+            Err(e) => {
+                // the cached error may stem from loading this object as a different type
+                match self.resolve(key).and_then(|p| T::from_primitive(p, self)) {
+                    Ok(obj) => Ok(RcRef::new(key, obj.into())),
+                    Err(_) => Err(PdfError::Shared { source: e.clone()}),
+                }
+            }
         }
     }
     fn options(&self) -> &ParseOptions {
